@@ -85,14 +85,14 @@ def _case_w(draw, cfg, tier):
 
 def strategy(tier):
     if tier == "quick":
-        return st.one_of(_case(CFG, tier), _case(CFG_N, tier), _case_w(CFG_W, tier), _case_w(CFG_W, tier))
+        return st.one_of(_case(CFG, tier), _case(CFG, tier), _case(CFG_N, tier), _case_w(CFG_W, tier), _case_w(CFG_W, tier), _case_w(CFG_W, tier))
     big = dict(max_tasks=9, max_time=[40])
     return st.one_of(_case(CFG.copy(**big), tier), _case(CFG.copy(**big), tier), _case(CFG_N.copy(**big), tier), _case_w(CFG_W.copy(max_tasks=7, max_workers=4), tier))
 
 
 def budget(tier):
     if tier == "quick":
-        return {"cases": 1000, "shards": 8}
+        return {"cases": 2000, "shards": 8}
     return {"cases": 12000, "shards": 16}
 
 
